@@ -4,7 +4,7 @@ from harness import gen, runner
 
 PID = "C19"
 NEEDS_UTILS = False
-RULE = ("seeded programs over the random-consuming APIs (rand/randn/normal/randint, every initialiser, layer constructors, Dropout forward+backward, "
+RULE = ("seeded programs over the random-consuming APIs (rand/randn/normal/randint, every initialiser, layer constructors, Module.apply with a random initialiser, Dropout forward+backward, conv/pool training with non-tiling windows, one_hot_encode of string labels, "
         "split_dataset(shuffle=True), 3-10 training steps with SGD/Adam/AdamW on Sequential(Linear,BatchNorm1d,ReLU,Dropout,Linear) with a wide "
         "fan-in penalty, re-seeding a model that already exists) and unseeded random DAG programs with 40-term fan-in per leaf; each program runs in >= 6 fresh processes "
         "(PYTHONHASHSEED in {0,1,4242,random} x 0 or 1e5 junk objects allocated before import) and 2-3 times inside each process; SHA-256 over "
@@ -22,7 +22,7 @@ def gen_cases(tier, seed):
     rng = gen.rng_for(seed, "c19", tier)
     cases = []
     seeds = [0, 1, 2 ** 31 - 1, int(seed) + 12345]
-    kinds = ["random-tensors", "initialisers", "layers", "dropout", "split", "reseed-existing-model"]
+    kinds = ["random-tensors", "initialisers", "layers", "dropout", "split", "reseed-existing-model", "train-conv", "apply-init", "onehot-strings"]
     reps = 2 if tier == "quick" else 8
     for rep in range(reps):
         for k in kinds:
